@@ -80,7 +80,7 @@ Definition rest : list alabel :=
    IWFinish; IGCancel 0; IGCompleteFail 0].
 
 Example way_out_reachable :
-  exists c, arun 2 true init_cfg way_out = Some c /\ ending c = true /\ all_gone c = false /\
+  exists c, arun 2 true init_cfg way_out = Some c /\ settling c = true /\ all_gone c = false /\
             exists c', arun 2 true c rest = Some c' /\ Forall (fun l => internal l = true) rest /\
                        all_gone c' = true /\ finished c' = true /\ WsActors.registered c' = false /\
                        map g_stops (gs c') = [1] /\ List.length rest <= mu c.
@@ -131,3 +131,15 @@ Example going_down_oracle :
   spec_verdict PWs cut = Some "operation-lifecycle"%string /\ spec_verdict_from 5 PWs cut = None /\
   spec_verdict_from 3 PWs behind_refused = Some "operation-before-init"%string.
 Proof. vm_compute. auto. Qed.
+
+(** a handler call that returns only upon cancellation, the application closes the connection meanwhile:
+    closing has begun, the cancellation arrives, everybody terminates *)
+Example cancel_instance :
+  exists c, arun 2 true init_cfg [EFrame [RWaitCancel; RSend; RSend]; EAppClose] = Some c /\
+            reachable 2 true c /\ closing c = true /\ waits c = true /\
+            exists c', arun 2 true c [IRCancelled; IRSendOk; IRSendOk; IRReturn; IWCloseMsg; IWDrainOk; IWDrainOk; IWDrainDone;
+                                      IWWaitDone; IReadFail; IWFinish; IAFinish] = Some c' /\ all_gone c' = true /\ finished c' = true.
+Proof.
+  eexists. split; [vm_compute; reflexivity|]. split; [exists [EFrame [RWaitCancel; RSend; RSend]; EAppClose]; vm_compute; reflexivity|]. split; [reflexivity|]. split; [reflexivity|].
+  eexists. split; [vm_compute; reflexivity|]. split; reflexivity.
+Qed.
